@@ -183,7 +183,7 @@ theorem checkErrors_range (z ps a b il ih l) : checkErrors z ps (.range a b il i
 
 /-- `check_fuzzy`; not wrapped: the term is not checked itself -/
 theorem checkErrors_fuzzy (z ps t n l) : checkErrors z ps (.approx .fuzzy t n l) =
-    (if n.val.neg then [lit "invalid degree " ++ n.val.truncText ++ lit ", it must be positive"]
+    (if n.val.neg then [lit "invalid degree " ++ n.val.render ++ lit ", it must be positive"]
      else []) ++
     (if isWord t then [] else [lit "Fuzzy should be on a single term in " ++ (Tree.approx .fuzzy t n l).str]) := by
   simp [checkErrors, Tree.className, method_Fuzzy, ownErrors, isInstance_Word]
